@@ -35,7 +35,34 @@ CL = "structure/celllist.pyx"
 NARROW_INT = {"int", "int32", "np.int32_t", "long"}
 
 
+def post_process_returns_rule(ctx, rule):
+    """what `_post_process` hands back for ONE query position is row 0 of what it hands back for several: with `as_mask` that is row 0 of
+    the mask matrix, without it row 0 of the index matrix.  By ways through the function: the returned expression descends from
+    `_as_mask(..)` exactly on the ways where `as_mask` holds"""
+    from .. import machine
+    from ..exprnorm import canon as _canon
+    f = ctx.src(CL).func("CellList._post_process")
+    k_mask = repr(_canon(ast.parse("as_mask", mode="eval").body))
+    k_nomask = repr(_canon(ast.parse("not as_mask", mode="eval").body))
+    bad, n_ret = [], 0
+    for w in machine.ways(f.body, machine.assigned_names(f)):
+        if not (w.exit or "").startswith("return "):
+            continue
+        expr = ast.parse(w.exit[len("return "):], mode="eval").body
+        root = next((x.id for x in ast.walk(expr) if isinstance(x, ast.Name)), None)
+        if k_mask not in w.conds and k_nomask not in w.conds:
+            continue
+        n_ret += 1
+        from_mask = "_as_mask(" in w.exit or any(u.startswith(f"{root} = ") and "_as_mask(" in u for u in w.updates)
+        if (k_mask in w.conds) != from_mask:
+            bad.append(f"`{w.exit}` under {'as_mask' if k_mask in w.conds else 'not as_mask'}")
+    ctx.need(n_ret >= 4, "the four returns of CellList._post_process (mask / indices x one / several positions)")
+    ctx.ob(rule, CL, "CellList._post_process", f"{n_ret} returns: a mask where as_mask holds, indices where it does not", not bad,
+           "; ".join(bad) + ": a single query position gets the other kind of result than several positions do", f.lineno)
+
+
 def run(ctx):
+    post_process_returns_rule(ctx, "R3.single-position-same-kind")
     s = ctx.src(CL)
     low = s.low
     fa = s.func("CellList._find_adjacent_atoms")
